@@ -35,9 +35,7 @@ def _run_sync(coro):
         coro.send(None)
     except StopIteration:
         return
-    # it suspended: let it finish as a task
-    async def rest():
-        await coro
+    coro.close()
     raise RuntimeError('API call suspended unexpectedly')
 
 
@@ -405,8 +403,8 @@ class Rig:
                 if st[0] == 'call':
                     try:
                         _run_sync(self._do(st))
-                    except RuntimeError:
-                        pass
+                    except RuntimeError as exc:
+                        self.rec(ev='exc', what=str(exc))
                 elif st[0] == 'close':
                     self._close(st[1])
                 elif st[0] == 'reply':
@@ -621,7 +619,7 @@ def _fingerprint(tid, info, trace):
     return f'C15:{_classify(info, trace)}'
 
 
-def _concretise(rng, i, users2):
+def _concretise(rng):
     return dict(users=('u1', 'u2'), flagperm=FLAG_PERMS[rng.randrange(len(FLAG_PERMS))],
                 via_cycle=bool(rng.randrange(3) == 0), how=CLOSE_HOWS[rng.randrange(len(CLOSE_HOWS))])
 
@@ -702,9 +700,6 @@ def run(chk: Check, args):
                        'virtual time with seeded flag permutation / close mode / transfer-cycle concretisation and judged '
                        'by TLC with UserTrackingTrace; distinct = distinct (schedule, concretisation); non-trivial = the '
                        'trace contains a call')
-    if getattr(args, 'replay', None):
-        return _replay(chk, args.replay)
-
     # ---- design model -------------------------------------------------------------
     rl = tlc.run_tlc(SPEC, 'MC_live.cfg', timeout=1500)
     chk.add_model('UserTracking liveness (1 user, 3 calls, fair)', rl)
@@ -753,7 +748,7 @@ def run(chk: Check, args):
     reps = 2 if thorough else 1
     for i, s in enumerate(keys):
         for rep in range(reps):
-            conc = _concretise(chk.rng, i, True)
+            conc = _concretise(chk.rng)
             if rep == 0 and scheds[s].startswith(('cex', 'sweep')):
                 conc.update(flagperm=FLAG_PERMS[0], via_cycle=False)
             ev = run_schedule(s, conc)
@@ -851,12 +846,16 @@ def _binding_selftest(chk, traces, v):
         raise MachineryFailure(f'corrupted traces were accepted by the trace spec: {sorted(set(missed))}')
 
 
-def _replay(chk, path):
-    import json
-    with open(path) as fh:
-        data = json.load(fh)
+def replay(chk, data):
+    """./check C15 --replay <file>: re-execute the recorded schedule with its concretisation on the
+    tree under test and let TLC judge the new trace."""
     meta = (data.get('replay') or {}).get('meta') or {}
-    sched = tuple(tuple(tuple(y) if isinstance(y, list) else y for y in x) for x in meta.get('schedule', []))
+    if not meta.get('schedule'):
+        raise MachineryFailure('replay file has no schedule')
+
+    def tup(x):
+        return tuple(tup(y) for y in x) if isinstance(x, list) else x
+    sched = tup(meta['schedule'])
     conc = meta.get('conc', {})
     ev = run_schedule(sched, conc)
     chk.count((sched, repr(conc)), nontrivial=True)
